@@ -83,11 +83,26 @@ POSITIVE_TRY = {"m.py": "import numba\nimport numpy as np\n\n@numba.njit()\ndef 
 def batch_loops_rule(ctx, rule, p, specs):
     """specs: (function qualname, loop variable name)"""
     ef = Effects(p)
-    for q, lvname in specs:
+    for q, role in specs:
         f = p.get_function(q)
-        loops = [n for n in own_walk(f.node) if isinstance(n, ast.For) and isinstance(n.target, ast.Name) and n.target.id == lvname]
+        # loops are identified by position, not by the name of their variable: "point" is the outermost range/prange loop of the
+        # function, "frequency" the range loop nested directly inside an outer range loop (or the outermost one when the function
+        # handles a single point)
+        def range_loops(stmts):
+            return [n for n in stmts if isinstance(n, ast.For) and isinstance(n.target, ast.Name) and isinstance(n.iter, ast.Call)
+                    and ast.unparse(n.iter.func) in ("range", "prange", "numba.prange")]
+        outer = range_loops(list(own_walk(f.node)))
+        top = [n for n in outer if not any(n is not m and n in list(ast.walk(m)) for m in outer)]
+        if role == "point":
+            loops = top
+        elif role == "frequency":
+            loops = [n for t in top for n in range_loops(list(ast.walk(t))) if n is not t and not any(
+                n is not m and m is not t and n in list(ast.walk(m)) for m in range_loops(list(ast.walk(t))))]
+        else:       # "single": the function handles one point, its outermost loop runs over frequencies
+            loops = top
+        lvname = loops[0].target.id if len(loops) == 1 else role
         if len(loops) != 1:
-            ctx.unsure(rule, f"{f.name}[{lvname}]", f"expected one loop over {lvname}, found {len(loops)}", f.loc())
+            ctx.unsure(rule, f"{f.name}[{role}]", f"expected one {role} loop, found {len(loops)}", f.loc())
             continue
         lp = loops[0]
         problems = []
@@ -154,9 +169,9 @@ def batch_loops_rule(ctx, rule, p, specs):
         if not okr:
             problems.append(f"the loop runs over `{ext}`, not over a whole array axis: some entries are never computed")
         if problems:
-            ctx.bad(rule, f"{f.name}[{lvname} loop]", "; ".join(sorted(set(problems))), f.loc(lp))
+            ctx.bad(rule, f"{f.name}[{role} loop]", "; ".join(sorted(set(problems))), f.loc(lp))
         else:
-            ctx.ok(rule, f"{f.name}[{lvname} loop]", "iterations are independent: stores indexed by the loop variable, nothing carried, "
+            ctx.ok(rule, f"{f.name}[{role} loop]", "iterations are independent: stores indexed by the loop variable, nothing carried, "
                    "mutating callees get per-iteration slices only", f.loc(lp))
 
 
@@ -305,9 +320,9 @@ def run(ctx):
     ctx.absorb(itf)
 
     # ---- R05.4 batch independence
-    batch_loops_rule(ctx, "R05.4", p, [(EST + "mem.mem", "ipoint"), (M2 + "mem2_scipy_root_finder", "ipoint"),
-                                        (M2 + "mem2_scipy_root_finder", "ifreq"), (M2 + "mem2_newton", "ipoint"),
-                                        (M2 + "_mem2_newton_point", "ifreq")])
+    batch_loops_rule(ctx, "R05.4", p, [(EST + "mem.mem", "point"), (M2 + "mem2_scipy_root_finder", "point"),
+                                        (M2 + "mem2_scipy_root_finder", "frequency"), (M2 + "mem2_newton", "point"),
+                                        (M2 + "_mem2_newton_point", "single")])
 
     # ---- R05.5 dispatch
     fm2 = p.get_function(M2 + "mem2")
